@@ -178,6 +178,10 @@ theorem measuredIndex_qName (i : Nat) : measuredIndex (qName i) = some i := by
   simp only [measuredIndex, qName, String.toList_ofList]
   exact parseIndex_printIndex i
 
+theorem ptypeIndex_pName (i : Nat) : ptypeIndex (pName i) = some i := by
+  simp only [ptypeIndex, pName, String.toList_ofList]
+  exact parseIndex_printIndex i
+
 /-- free-parameter names that are not of the form `q<index>` (otherwise the IRs cannot tell them from
 measured parameters) -/
 def WellNamed (e : Sym) : Prop := ∀ f ∈ e.frees, measuredIndex f = none
